@@ -517,13 +517,17 @@ def kin(draw, db, uptake_ok=("H2O",)):
         else:
             parm = draw(cg.logu(1e-10, 1e-5, 2)) * (100.0 if draw(st.integers(0, 4)) == 0 else 1.0)
         comps.append({"rate": r, "formula": f, "m0": m0, "m": m, "parm": float("%.3g" % parm)})
-    # rates that do not fade out as m -> 0 and would consume more than the reactant holds are integrated with the
-    # Runge-Kutta method only (it clips the reaction at m = 0); CVODE on such a discontinuous rate does not return or
-    # crashes on the unchanged tree (seen with Fe + exchanger + 74 mol of Gypsum requested from 0.48 mol)
-    overshoot = any(c["rate"] in ("r_const", "r_unguarded") and c["parm"] * top > 0.5 * c["m"] for c in comps)
+    # Every KINETICS block is integrated with the Runge-Kutta method (-cvode false).  With -cvode true the engine does
+    # not return (100 % CPU, > 10 min, all four shards of a thorough run hung) whenever the chemistry of one integration
+    # sub-step cannot be converged: set_and_run_wrapper() turns "failed on all parameter combinations" into MASS_BALANCE
+    # for CVODE and the integrator retries without bound.  Seen with tiny, smooth demands as well (1e-8 mol taken from
+    # 1 mol) - the same inputs return at once with Runge-Kutta (three of four with an ordinary convergence error) - and
+    # with rates that overshoot the reactant (Fe + exchanger + 74 mol of Gypsum requested from 0.48 mol: hang or
+    # segmentation fault).  A hang makes the whole run INCONCLUSIVE, so CVODE is excluded by construction; the draw is
+    # kept and recorded as `cvode_forced_off` so that the evidence shows how often it was asked for.
     cv = draw(st.booleans())
-    d = {"comps": comps, "cvode": cv and not overshoot}
-    if cv and overshoot:
+    d = {"comps": comps, "cvode": False}
+    if cv:
         d["cvode_forced_off"] = True
     if draw(st.booleans()):
         k = draw(st.integers(1, 3))
